@@ -617,6 +617,171 @@ example : letI := fieldNum ℚ (fun x => x)
 /-- non-vacuity of the 2-D box theorems: a valid rectangle and `0 ≤ max ≤ big` -/
 example : ((-1 : ℚ) ≤ 1 ∧ (-2 : ℚ) ≤ 2) ∧ (0 : ℚ) ≤ 5 ∧ (5 : ℚ) ≤ 1000 := by norm_num
 
+/-! ## C. HeightField (3-D) grid walk: one step never skips a column -/
+
+/-- **`nextCell` (the "find the next cell" tail of one iteration of the 3-D heightfield walk) is sound and complete for one
+step.**  Let the ray be in the column of the valid cell `(ci, cj)` at parameter `t ≥ 0` (`ColMem`: `x ∈ [x_at(cj), x_at(cj+1)]`,
+`z ∈ [z_at(ci), z_at(ci+1)]`), grid lines non-decreasing, `max_t < Real::MAX`.  Then
+* `Some (ni, nj)`: there is a parameter `te ∈ [t, max_t]` such that the ray stays in the column of `(ci, cj)` on `[t, te]`
+  and is in the column of `(ni, nj)` at `te`, and `(ni, nj)` is the 4-neighbour across the boundary reached — no column the
+  ray crosses is skipped, and cells are visited in the order of their entry times;
+* `None`: either the ray stays in the column of `(ci, cj)` for the whole rest `[t, max_t]` of the clipped range, or it stays
+  there until a parameter `te ≤ max_t` at which it reaches the outer edge of the grid moving outwards.
+By induction over the walk this is the completeness of the cell walk (`hf_cast_firstHit_full`); the induction itself (with
+the start cell `closest_cell_at_point`) is not carried out — it stays covered by the brute-force oracle. -/
+theorem hf_nextCell_step (big : K) (h : HeightField3 K) (ray : Ray3 K) (maxT t : K) (ci cj : Nat)
+    (ht : 0 ≤ t) (hbig : maxT < big) (hvalid : ci < h.nr - 1 ∧ cj < h.nc - 1)
+    (hmx : letI := fieldNum K sq; ∀ j, h.xAt j ≤ h.xAt (j + 1))
+    (hmz : letI := fieldNum K sq; ∀ i, h.zAt i ≤ h.zAt (i + 1))
+    (hin : ColMem sq h ci cj (rayPt sq ray t)) :
+    letI := fieldNum K sq
+    match h.nextCell big ray maxT ci cj with
+    | some (ni, nj) => ∃ te, t ≤ te ∧ te ≤ maxT ∧ (∀ s, t ≤ s → s ≤ te → ColMem sq h ci cj (rayPt sq ray s)) ∧
+        ColMem sq h ni nj (rayPt sq ray te) ∧
+        ((ni = ci ∧ (nj = cj + 1 ∨ nj + 1 = cj)) ∨ (nj = cj ∧ (ni = ci + 1 ∨ ni + 1 = ci)))
+    | none => (∀ s, t ≤ s → s ≤ maxT → ColMem sq h ci cj (rayPt sq ray s)) ∨
+        ∃ te, t ≤ te ∧ te ≤ maxT ∧ (∀ s, t ≤ s → s ≤ te → ColMem sq h ci cj (rayPt sq ray s)) ∧
+          ((ray.d.x < 0 ∧ (rayPt sq ray te).x = h.xAt 0) ∨ (0 < ray.d.x ∧ (rayPt sq ray te).x = h.xAt (h.nc - 1)) ∨
+           (ray.d.z < 0 ∧ (rayPt sq ray te).z = h.zAt 0) ∨ (0 < ray.d.z ∧ (rayPt sq ray te).z = h.zAt (h.nr - 1))) := by
+  rw [nextCell_eq]
+  have hpx : ∀ s, (rayPt sq ray s).x = ray.o.x + ray.d.x * s := fun s => rfl
+  have hpz : ∀ s, (rayPt sq ray s).z = ray.o.z + ray.d.z * s := fun s => rfl
+  obtain ⟨hinx, hinz⟩ := hin
+  rw [hpx] at hinx; rw [hpz] at hinz
+  obtain ⟨X1, X2, X3, X4, X5⟩ := axisToi_spec big (@HeightField3.xAt K (fieldNum K sq) h cj)
+    (@HeightField3.xAt K (fieldNum K sq) h (cj + 1)) ray.o.x ray.d.x t ht hinx
+  obtain ⟨Z1, Z2, Z3, Z4, Z5⟩ := axisToi_spec big (@HeightField3.zAt K (fieldNum K sq) h ci)
+    (@HeightField3.zAt K (fieldNum K sq) h (ci + 1)) ray.o.z ray.d.z t ht hinz
+  simp only [nextCellA]
+  generalize hTx : max (axisToi big (@HeightField3.xAt K (fieldNum K sq) h cj)
+    (@HeightField3.xAt K (fieldNum K sq) h (cj + 1)) ray.o.x ray.d.x).1 0 = Tx at *
+  generalize hTz : max (axisToi big (@HeightField3.zAt K (fieldNum K sq) h ci)
+    (@HeightField3.zAt K (fieldNum K sq) h (ci + 1)) ray.o.z ray.d.z).1 0 = Tz at *
+  generalize (axisToi big (@HeightField3.xAt K (fieldNum K sq) h cj)
+    (@HeightField3.xAt K (fieldNum K sq) h (cj + 1)) ray.o.x ray.d.x).2 = fx at *
+  generalize (axisToi big (@HeightField3.zAt K (fieldNum K sq) h ci)
+    (@HeightField3.zAt K (fieldNum K sq) h (ci + 1)) ray.o.z ray.d.z).2 = fz at *
+  have hTz0 : 0 ≤ Tz := by rw [← hTz]; exact le_max_right _ _
+  have hTx0 : 0 ≤ Tx := by rw [← hTx]; exact le_max_right _ _
+  have col : ∀ te, te ≤ Tx → te ≤ Tz → ∀ s, t ≤ s → s ≤ te → ColMem sq h ci cj (rayPt sq ray s) := by
+    intro te h1 h2 s a b
+    exact ⟨by rw [hpx]; exact X1 s a (le_trans b h1), by rw [hpz]; exact Z1 s a (le_trans b h2)⟩
+  by_cases hstop : maxT < Tx ∧ maxT < Tz
+  · rw [if_pos hstop]
+    exact Or.inl (col maxT hstop.1.le hstop.2.le)
+  · rw [if_neg hstop]
+    by_cases hxs : 0 ≤ Tx ∧ Tx < Tz
+    · -- step along x
+      have hle : Tx ≤ maxT := by
+        by_contra hc; push Not at hc; exact hstop ⟨hc, lt_trans hc hxs.2⟩
+      have hdx : ray.d.x ≠ 0 := by
+        intro h0
+        have := (X5 h0).2
+        linarith
+      have htx := X2 hdx
+      rw [if_pos hxs]
+      rcases lt_or_gt_of_ne hdx with hneg | hpos
+      · obtain ⟨hf, hval⟩ := X4 hneg
+        rw [hf]
+        simp only [Bool.false_eq_true, if_false]
+        by_cases hcj : 0 < cj
+        · rw [if_pos hcj]
+          have hidx : ¬ (h.nr - 1 ≤ ci ∨ h.nc - 1 ≤ cj - 1) := by omega
+          simp only [hidx, if_false]
+          refine ⟨Tx, htx, hle, col Tx (le_refl _) hxs.2.le, ⟨?_, ?_⟩, (by first | omega | (simp; done) | (simp; omega))⟩
+          · rw [hpx, hval]
+            have e : cj - 1 + 1 = cj := by omega
+            have hm1 := hmx (cj - 1)
+            rw [e] at hm1 ⊢
+            exact ⟨hm1, le_refl _⟩
+          · rw [hpz]; exact Z1 Tx htx hxs.2.le
+        · rw [if_neg hcj]
+          have e0 : cj = 0 := by omega
+          refine Or.inr ⟨Tx, htx, hle, col Tx (le_refl _) hxs.2.le, Or.inl ⟨hneg, ?_⟩⟩
+          rw [hpx, hval, e0]
+      · obtain ⟨hf, hval⟩ := X3 hpos
+        rw [hf]
+        simp only [if_true]
+        by_cases hidx : h.nr - 1 ≤ ci ∨ h.nc - 1 ≤ cj + 1
+        · simp only [hidx, if_true]
+          have e : cj + 1 = h.nc - 1 := by omega
+          refine Or.inr ⟨Tx, htx, hle, col Tx (le_refl _) hxs.2.le, Or.inr (Or.inl ⟨hpos, ?_⟩)⟩
+          rw [hpx, hval, e]
+        · simp only [hidx, if_false]
+          refine ⟨Tx, htx, hle, col Tx (le_refl _) hxs.2.le, ⟨?_, ?_⟩, (by first | omega | (simp; done) | (simp; omega))⟩
+          · rw [hpx, hval]; exact ⟨le_refl _, hmx (cj + 1)⟩
+          · rw [hpz]; exact Z1 Tx htx hxs.2.le
+    · -- step along z
+      rw [if_neg hxs, if_pos hTz0]
+      have hzx : Tz ≤ Tx := by
+        by_contra hc; push Not at hc; exact hxs ⟨hTx0, hc⟩
+      have hle : Tz ≤ maxT := by
+        by_contra hc; push Not at hc; exact hstop ⟨lt_of_lt_of_le hc hzx, hc⟩
+      have hdz : ray.d.z ≠ 0 := by
+        intro h0
+        have := (Z5 h0).2
+        linarith
+      have htz := Z2 hdz
+      rcases lt_or_gt_of_ne hdz with hneg | hpos
+      · obtain ⟨hf, hval⟩ := Z4 hneg
+        rw [hf]
+        simp only [Bool.false_eq_true, if_false]
+        by_cases hci : 0 < ci
+        · rw [if_pos hci]
+          have hidx : ¬ (h.nr - 1 ≤ ci - 1 ∨ h.nc - 1 ≤ cj) := by omega
+          simp only [hidx, if_false]
+          refine ⟨Tz, htz, hle, col Tz hzx (le_refl _), ⟨?_, ?_⟩, (by first | omega | (simp; done) | (simp; omega))⟩
+          · rw [hpx]; exact X1 Tz htz hzx
+          · rw [hpz, hval]
+            have e : ci - 1 + 1 = ci := by omega
+            have hm1 := hmz (ci - 1)
+            rw [e] at hm1 ⊢
+            exact ⟨hm1, le_refl _⟩
+        · rw [if_neg hci]
+          have e0 : ci = 0 := by omega
+          refine Or.inr ⟨Tz, htz, hle, col Tz hzx (le_refl _), Or.inr (Or.inr (Or.inl ⟨hneg, ?_⟩))⟩
+          rw [hpz, hval, e0]
+      · obtain ⟨hf, hval⟩ := Z3 hpos
+        rw [hf]
+        simp only [if_true]
+        by_cases hidx : h.nr - 1 ≤ ci + 1 ∨ h.nc - 1 ≤ cj
+        · simp only [hidx, if_true]
+          have e : ci + 1 = h.nr - 1 := by omega
+          refine Or.inr ⟨Tz, htz, hle, col Tz hzx (le_refl _), Or.inr (Or.inr (Or.inr ⟨hpos, ?_⟩))⟩
+          rw [hpz, hval, e]
+        · simp only [hidx, if_false]
+          refine ⟨Tz, htz, hle, col Tz hzx (le_refl _), ⟨?_, ?_⟩, (by first | omega | (simp; done) | (simp; omega))⟩
+          · rw [hpx]; exact X1 Tz htz hzx
+          · rw [hpz, hval]; exact ⟨le_refl _, hmz (ci + 1)⟩
+
+private theorem lit_nat (n : Nat) : @lit K (fieldNum K sq) ((n : Nat) : Int) 1 = (n : K) := by
+  rw [fieldNum_lit]; simp [Rat.mkRat_one]
+
+/-- the grid-line hypotheses of `hf_nextCell_step` hold for every heightfield with at least two columns / rows and
+non-negative horizontal scales (so they are satisfiable: non-vacuity) -/
+theorem hf_grid_mono (h : HeightField3 K) (hnc : 2 ≤ h.nc) (hnr : 2 ≤ h.nr) (hsx : 0 ≤ h.sc.x) (hsz : 0 ≤ h.sc.z) :
+    letI := fieldNum K sq
+    (∀ j, h.xAt j ≤ h.xAt (j + 1)) ∧ (∀ i, h.zAt i ≤ h.zAt (i + 1)) := by
+  have hc : (0 : K) < (h.nc : K) - 1 := by
+    have : (2 : K) ≤ (h.nc : K) := by exact_mod_cast hnc
+    linarith
+  have hr : (0 : K) < (h.nr : K) - 1 := by
+    have : (2 : K) ≤ (h.nr : K) := by exact_mod_cast hnr
+    linarith
+  constructor
+  · intro j
+    simp only [HeightField3.xAt, HeightField3.ucw, lit_nat]
+    have : ((j + 1 : Nat) : K) = (j : K) + 1 := by push_cast; ring
+    rw [this]
+    have hu : 0 ≤ 1 / ((h.nc : K) - 1) := by positivity
+    nlinarith [mul_nonneg hu hsx]
+  · intro i
+    simp only [HeightField3.zAt, HeightField3.uch, lit_nat]
+    have : ((i + 1 : Nat) : K) = (i : K) + 1 := by push_cast; ring
+    rw [this]
+    have hu : 0 ≤ 1 / ((h.nr : K) - 1) := by positivity
+    nlinarith [mul_nonneg hu hsz]
+
 /-- non-vacuity: the support function of the cube `[-1,1]³` (`sign`-vertex) dominates the cube, over `ℚ` -/
 example : Supports (K := ℚ) (fun p => |p.x| ≤ 1 ∧ |p.y| ≤ 1 ∧ |p.z| ≤ 1)
     (fun d => ⟨if d.x < 0 then -1 else 1, if d.y < 0 then -1 else 1, if d.z < 0 then -1 else 1⟩) := by
